@@ -77,4 +77,19 @@ def dispatch (self : Nat) (addrType : Nat) (addr : Bytes) (path : List Nat) : Di
     else .exitTCP
   else .relay
 
+/-! ### Ingress: how Agent.DialForward writes the address, and what the wire keeps of it
+
+      forwardAddr := protocol.ForwardStreamPrefix + key
+      addrBytes[0] = byte(len(forwardAddr)); copy(addrBytes[1:], forwardAddr)
+
+  `byte(len)` truncates modulo 256, and DecodeStreamOpen believes the length byte: it keeps the
+  length byte and that many bytes. -/
+
+def ingressAddr (key : Bytes) : Bytes :=
+  UInt8.ofNat ((forwardPrefix.length + key.length) % 256) :: (forwardPrefix ++ key)
+
+def wireAddr : Bytes → Bytes
+  | [] => []
+  | n :: rest => n :: rest.take n.toNat
+
 end MM.C20
